@@ -491,6 +491,55 @@ let () =
                   | Some r -> "fail:" ^ r
                   | None -> if !known then "fail:evict-then-append" else "ok") in
         Mlutil.print_model model verdict
+    | "big", [capf; poolf; nf; ntof; repf] ->
+        (* restart with large on-disk structures. The model does not care about byte sizes: it is run with compact
+           stand-ins for the recipients and the body (order, handles, seen flags, cap), the rendered listing puts the
+           real recipients / sizes / content digests back; the oracle is the same ordered map on strings. *)
+        let ctx = mk_ctx capf poolf in
+        let n = int_of_string nf and nto = int_of_string ntof and rep = int_of_string repf in
+        let fnv s = let h = ref 2166136261 in
+          String.iter (fun c -> h := ((!h lxor Char.code c) * 16777619) land 0xFFFFFFFF) s; !h in
+        let short l =
+          let cnt = if l = "-" || l = "" then 0 else List.length (split ';' l) in
+          Printf.sprintf "%d:%08x" cnt (fnv l) in
+        let totext j = String.concat "" (List.init nto (fun i -> Printf.sprintf "R%d<r%dm%d@to.example>," i i j)) in
+        let tok j seen =
+          let b = String.concat "" (List.init rep (fun _ -> Printf.sprintf "body %08d \r\n" j)) in
+          Printf.sprintf "k%d.big%d.%d:%08x.%d.%s.%s" j j nto (fnv (totext j)) (String.length b) (if seen then "1" else "0") (digest b) in
+        let cadd j = OAdd (0, "big" ^ string_of_int j, 1600000000 + j, "x", 1) in
+        let render st =
+          match view dec st.d (ctx.hash (s2l (mbname ctx 0))) with
+          | None -> "ERR"
+          | Some [] -> "-"
+          | Some v -> String.concat ";" (List.map (fun ((_, m), _) ->
+              let h = handle_of st 0 m.m_id in
+              let j = int_of_string (String.sub h 1 (String.length h - 1)) in tok j m.m_seen) v) in
+        let st = ref (init_st ctx) in
+        for j = 0 to n - 1 do st := snd (do_op ctx !st (cadd j)) done;
+        let l0 = short (render !st) in
+        let (r1, st1) = do_op ctx !st (OSeen (0, 0)) in
+        let (r2, st2) = do_op ctx st1 (cadd n) in
+        let l2 = short (render st2) in
+        let model = ["l0=" ^ l0; "l1=" ^ l0; "l2=" ^ l2; "same=1"; "res=" ^ r1 ^ "," ^ r2] in
+        (* the ordered map on strings *)
+        let ab = ref [] in
+        for j = 0 to n - 1 do ab := spec_add ctx !ab (tok j false) done;
+        let e0 = short (if !ab = [] then "-" else String.concat ";" !ab) in
+        let h0 = "k0." in
+        let found = List.exists (fun m -> String.length m >= 3 && String.sub m 0 3 = h0) !ab in
+        let ab1 = List.map (fun m -> if String.length m >= 3 && String.sub m 0 3 = h0 then tok 0 true else m) !ab in
+        let ab2 = spec_add ctx ab1 (tok n false) in
+        let e2 = short (String.concat ";" ab2) in
+        let verdict =
+          match outs with
+          | ["POOL-DIFFERS"] -> "fail:hash-of-pool-names-changed"
+          | _ ->
+            if field outs "l0" <> e0 then "fail:listing-of-the-large-mailbox-differs-from-ordered-map"
+            else if field outs "l1" <> e0 || field outs "same" <> "1" then "fail:large-mailbox-differs-after-reopen"
+            else if field outs "res" <> (if found then "ok" else "notexist") ^ ",k" ^ string_of_int n then "fail:operation-result-differs-from-ordered-map"
+            else if field outs "l2" <> e2 then "fail:large-mailbox-differs-after-mutation-and-reopen"
+            else "ok" in
+        Mlutil.print_model model verdict
     | "srv", [capf; _poolf; _period; mailsf] ->
         (* the SERVER stopped and started again on the same storage path: the ordered map does not restart, and
            retention with period 0 (disabled) / hours removes nothing within the seconds a case takes *)
